@@ -67,6 +67,9 @@ type Config struct {
 	Binds     []BindSpec
 	Replace   []string // keymaps whose bind map is replaced by a fresh empty one before Binds are applied
 	Highlight bool     // install a syntax highlighter that colours the letter 'a'
+	// TtyAlt[i] = true: before call i the harness changes the tty settings as "stty -ixon erase ^H"
+	// would (the application's own settings changed between two calls); the call must leave exactly those.
+	TtyAlt []bool `json:",omitempty"`
 }
 
 // Answer is the environment's answer to one wait on the key input.
